@@ -252,7 +252,8 @@ def main(argv=None):
         seen_v.setdefault(r['name'], []).append(r)
     for name, rs in seen_v.items():
         r = rs[0]
-        fn = os.path.join('out', 'replay_%s_%s.json' % (pid, name.replace('/', '__').replace('[', '_').replace(']', '_').replace('=', '_')))
+        import re
+        fn = os.path.join('out', 'replay_%s_%s.json' % (pid, re.sub(r'[^A-Za-z0-9_.@-]', '_', name.replace('/', '__'))))
         rp = r.get('replay') or {}
         json.dump({'property': pid, 'obligation': name, 'paths': [x['path'] for x in rs], 'solver_output': r['detail'],
                    'backend': r['backend'], 'input': r.get('replay_input'), 'clause': r.get('clause'),
